@@ -291,8 +291,33 @@ func (h *harness) sectionFull() {
 		uadv[s[0]] = advPair(ubP, "ubuntu-"+s[0], false)
 	}
 	w.ubuntuWorld(series, uadv)
-	w.photonWorld(map[string][]adv{"photon1": nil, "photon2": nil, "photon3": nil})
-	w.suseWorld(map[string][]adv{"suse.linux.enterprise.server.15.xml.gz": {{pkg: "x", fixed: "0:1-1", id: "SUSE-x"}}})
+	// the rpm-based distributions: feeds for every release with a fixture image
+	rpmP := h.genPair("rpm")
+	padv := map[string][]adv{}
+	for _, rel := range []string{"photon1", "photon2", "photon3"} {
+		padv[rel] = advPair(rpmP, "photon-"+rel, false)
+	}
+	w.photonWorld(padv)
+	sfiles := map[string][]adv{}
+	for _, n := range []string{"12", "15"} {
+		sfiles["suse.linux.enterprise.server."+n+".xml.gz"] = advPair(rpmP, "suse-"+n, false)
+	}
+	for _, n := range []string{"15.5", "15.6"} {
+		sfiles["opensuse.leap."+n+".xml.gz"] = advPair(rpmP, "leap-"+n, false)
+	}
+	w.suseWorld(sfiles)
+	w.awsWorld(map[string][]adv{"AL1": advPair(rpmP, "aws-AL1", false), "AL2": advPair(rpmP, "aws-AL2", false), "AL2023": advPair(rpmP, "aws-AL2023", false)})
+	var oadvs []adv
+	for _, n := range []string{"5", "6", "7", "8", "9"} {
+		for _, a := range advPair(rpmP, "oracle-"+n, false) {
+			a.plats = []string{"Oracle Linux " + n}
+			oadvs = append(oadvs, a)
+		}
+	}
+	// a definition that names two releases reaches both
+	oadvs = append(oadvs, adv{pkg: rpmP.vulnBin, fixed: rpmP.fixIn, id: "ADV-oracle-7+8-vuln", plats: []string{"Oracle Linux 7", "Oracle Linux 8"}})
+	thisYear := time.Now().Year()
+	oracleCfgs := w.oracleYearsWorld(map[int][]adv{2024: oadvs}, 2007, thisYear)
 	exe, _ := os.Executable()
 	var exeBytes []byte
 	if exe != "" {
@@ -324,9 +349,12 @@ func (h *harness) sectionFull() {
 	for _, n := range []string{"alpine", "debian", "ubuntu", "osv", "photon", "suse"} {
 		cfgs[n] = worldConfig
 	}
+	for n, c := range oracleCfgs {
+		cfgs[n] = c
+	}
 	lv, err := libvuln.New(ctx, &libvuln.Options{
 		Store: st, Locker: updates.NewLocalLockSource(), Client: w.client(),
-		UpdaterSets:              []string{"alpine", "debian", "ubuntu", "osv", "photon", "suse"},
+		UpdaterSets:              []string{"alpine", "debian", "ubuntu", "osv", "photon", "suse", "aws", "oracle"},
 		UpdaterConfigs:           cfgs,
 		DisableBackgroundUpdates: true,
 		UpdateRetention:          2,
@@ -352,9 +380,9 @@ func (h *harness) sectionFull() {
 	if len(failed) > 0 {
 		r.Fail("", "full: updaters failed against the generated world: "+strings.Join(failed, "; "))
 	}
-	wantUpd := len(h.fx.Dirs["alpine"]) + 1 + len(h.fx.UbuntuSeries) + 4 + 1
+	wantUpd := len(h.fx.Dirs["alpine"]) + 1 + len(h.fx.UbuntuSeries) + 4 + 4 + 3 + 3 + (thisYear - 2007 + 1)
 	if nUpd < wantUpd {
-		r.Fail("", fmt.Sprintf("full: only %d updaters stored advisories, expected at least %d (alpine per release, debian, ubuntu per series, osv x4, suse)", nUpd, wantUpd))
+		r.Fail("", fmt.Sprintf("full: only %d updaters stored advisories, expected at least %d (alpine per release, debian, ubuntu per series, osv x4, suse x4, photon x3, aws x3, oracle per year)", nUpd, wantUpd))
 	}
 
 	// ---- libindex
@@ -368,10 +396,16 @@ func (h *harness) sectionFull() {
 	}
 	defer li.Close(ctx)
 
+	var scanN func(eco, rel string, p pkgPair, want []string, layers ...map[string][]byte)
 	scan := func(eco, rel string, p pkgPair, want string, layers ...map[string][]byte) {
+		scanN(eco, rel, p, []string{want}, layers...)
+	}
+	scanN = func(eco, rel string, p pkgPair, wants []string, layers ...map[string][]byte) {
 		if r.Stop() {
 			return
 		}
+		sort.Strings(wants)
+		want := strings.Join(wants, " ")
 		key := fmt.Sprintf("full %s release=%s vuln=%s@%s fixed=%s@%s fixIn=%s layers=%d", eco, rel, p.vulnBin, p.vulnVer, p.fixedBin, p.fixedVer, p.fixIn, len(layers))
 		r.Case(key, true)
 		r.Count("full:" + eco)
@@ -403,7 +437,7 @@ func (h *harness) sectionFull() {
 			return
 		}
 		gotV, gotF := reportedFor(vr, p.vulnBin), reportedFor(vr, p.fixedBin)
-		if len(gotV) != 1 || gotV[0] != want {
+		if strings.Join(gotV, " ") != want {
 			r.Fail("", fmt.Sprintf("%s: libvuln.Scan reports the vulnerable package %v, expected exactly [%s] (distributions: %s)", key, gotV, want, distsOf(ir)))
 		}
 		if len(gotF) != 0 {
@@ -450,6 +484,59 @@ func (h *harness) sectionFull() {
 				scan("ubuntu", s[0], ubP, "ADV-ubuntu-"+s[0]+"-vuln", withFiles(e.Files, nil), dpkgFiles(ubP, false))
 			} else {
 				scan("ubuntu", s[0], ubP, "ADV-ubuntu-"+s[0]+"-vuln", withFiles(e.Files, dpkgFiles(ubP, false)))
+			}
+		}
+	}
+	// rpm-based images: the fixture os-release / issue file of the release and
+	// an rpm database (sqlite or ndb) written by the harness, through the real
+	// rpm.Scanner and the distribution scanners of the rpm ecosystem
+	{
+		type rpmImg struct{ eco, rel, path, content, want string }
+		var imgs []rpmImg
+		byVar := func(d string) map[string]string {
+			m := map[string]string{}
+			for _, v := range h.fx.Vars[d] {
+				m[v.Name] = v.Content
+			}
+			return m
+		}
+		for _, d := range []string{"aws", "oracle", "photon"} {
+			vars := byVar(d)
+			for _, e := range h.fx.Expected[d] {
+				p := "etc/os-release"
+				if strings.Contains(e[1], "Issue") {
+					p = "etc/issue"
+				}
+				imgs = append(imgs, rpmImg{d, e[1], p, vars[e[1]], "ADV-" + d + "-" + e[0] + "-vuln"})
+			}
+		}
+		sv := byVar("suse")
+		imgs = append(imgs, rpmImg{"suse", "enterpriseServer12OSRelease", "etc/os-release", sv["enterpriseServer12OSRelease"], "ADV-suse-12-vuln"},
+			rpmImg{"suse", "enterpriseServer15OSRelease", "etc/os-release", sv["enterpriseServer15OSRelease"], "ADV-suse-15-vuln"})
+		for _, n := range []string{"15.5", "15.6"} {
+			imgs = append(imgs, rpmImg{"suse", "leap" + n, "etc/os-release", strings.ReplaceAll(sv["leap151OSRelease"], "15.1", n), "ADV-leap-" + n + "-vuln"})
+		}
+		for i, im := range imgs {
+			flavour := []string{"sqlite", "ndb"}[i%2]
+			dbPath, db, err := rpmImageDB(rpmP, flavour, "")
+			if err != nil {
+				fail("writing an rpm database", err)
+				break
+			}
+			want := []string{im.want}
+			if im.eco == "oracle" {
+				for _, e := range h.fx.Expected["oracle"] {
+					if e[1] == im.rel && (e[0] == "7" || e[0] == "8") {
+						want = append(want, "ADV-oracle-7+8-vuln")
+					}
+				}
+			}
+			base := map[string][]byte{im.path: []byte(im.content)}
+			if i%3 == 0 {
+				scanN(im.eco+"-rpm-"+flavour, im.rel, rpmP, want, base, map[string][]byte{dbPath: db})
+			} else {
+				base[dbPath] = db
+				scanN(im.eco+"-rpm-"+flavour, im.rel, rpmP, want, base)
 			}
 		}
 	}
